@@ -105,17 +105,14 @@ EXPORT errno_t _strchr_s_chk(const char *restrict dest, rsize_t dmax,
           ? (char *) __rawmemchr ((const char *)dest, ch)
           : __builtin_strchr ((const char *)dest, ch)));
     */
-#if defined(__GNUC__) && (((__GNUC__ * 100) + __GNUC_MINOR__) == 404)
-    *resultp = (char *)__builtin_strchr((const char *)dest, ch);
-#else
-    *resultp = (char *)strchr((const char *)dest, ch);
-#endif
-
+    {
+        /* look at the string inside the first dmax characters only,
+           including its terminator when that lies inside dmax */
+        rsize_t len = strnlen_s(dest, dmax);
+        *resultp = (char *)memchr((const void *)dest, ch,
+                                  len < dmax ? len + 1 : len);
+    }
     if (!*resultp)
         return (ESNOTFND);
-    else if ((long)(*resultp - dest) > (long)dmax) {
-        *resultp = NULL;
-        return (ESNOTFND);
-    }
     return (EOK);
 }
